@@ -186,7 +186,8 @@ def parser_side(prog, tt):
 
 def s1(prog):
     tt = tree_types(prog)
-    a = builder_side(prog, tt)
+    import r_build
+    a = r_build.scope_opened(prog)        # abstract evaluation of build_exec/build_pred per tree kind (helpers transparent)
     b = parser_side(prog, tt)
     inst, findings = [], []
     for k in KINDS:
